@@ -93,8 +93,25 @@ func Run(r *core.Run) {
 		plans = append(plans, plan{"ecdsa-keygen", 1, false, false}, plan{"ecdsa-resharing", 0, false, false}, plan{"ecdsa-resharing", 2, false, false})
 	}
 	var cases []fault.Case
+	if !full {
+		// three parties, the deviator is NOT the last one: round-1 broadcast only (blame must not drift to a later party)
+		plans = append(plans, plan{"ecdsa-keygen-3:KGRound1Message", 0, false, false})
+	}
 	for _, p := range plans {
+		only := ""
+		if i := strings.Index(p.scn, ":"); i >= 0 {
+			p.scn, only = p.scn[:i], p.scn[i+1:]
+		}
 		cs, _, err := fault.EnumerateFieldCases(p.scn, p.deviator, kinds, p.allIdx, p.allAddr)
+		if only != "" {
+			var sel []fault.Case
+			for _, c := range cs {
+				if c.Dev.MsgType == only {
+					sel = append(sel, c)
+				}
+			}
+			cs = sel
+		}
 		if err != nil {
 			fmt.Fprintln(os.Stderr, "INFRASTRUCTURE: honest run of", p.scn, "failed:", err)
 			os.Exit(2)
